@@ -208,6 +208,30 @@ class Evaluator:
         return None
 
 
+def flag_cases(fn, make_evaluator, limit=4):
+    """Case split on named flags: [var_values, ...].
+
+    A local that is initialised once and never re-assigned has one value on a whole path; when a branch condition tests it twice, folding
+    each test on its own creates paths on which the flag is true at the first test and false at the second.  For every such local whose
+    initialiser the evaluator cannot fold, the function is explored once per value."""
+    base = make_evaluator({})
+    flags = []
+    for b in fn.blocks.values():
+        t = b.get('term')
+        if not (t and 'cond' in t) or t['k'] == 'switch':
+            continue
+        for j in fn.walk(t['cond']):
+            n = fn.nodes[j]
+            if n['k'] == 'var' and n.get('vk') == 'local' and not n.get('outer') and (n.get('t') or '').replace('const ', '') == 'bool' \
+                    and n['decl'] not in flags and fn.single_def(n['decl']) is not None and not isinstance(base.ev(j, None), bool):
+                flags.append(n['decl'])
+    flags = flags[:limit]
+    cases = [{}]
+    for d in flags:
+        cases = [{**c, d: v} for c in cases for v in (True, False)]
+    return cases
+
+
 def explore(fn, init, transfer=None, evalcond=None, refine=None, max_states=200000, edge_filter=None, record_visits=None):
     """Exhaustive exploration.
 
